@@ -981,7 +981,11 @@ def recon_cfg(NIs=("DEFAULT", "vrf1"), TOnly=(), NHK=("1", "2"), NHGK=("1",), NH
 def recon_attr(comp, ev, rec):
     if comp.startswith("recon"):
         return {"C15"}
-    return rib_attr(comp, ev, rec)
+    owners = set(rib_attr(comp, ev, rec))
+    if comp in ("rib", "fold", "flush:rib", "refs", "flush:refs", "counters"):
+        # what the reconciler reads (contents) and relies on (deletion protection) of its target
+        owners.add("C15")
+    return owners
 
 
 def recon_stats(path, prop):
